@@ -495,12 +495,14 @@ def harnesses(tier):   # noqa: F811
 
 class ConversionSuffix(Harness):
     name = 'parse_query.conversion_suffix'
-    props = ('C04', 'C05')
+    props = ('C04', 'C05', 'C10')
     entry_name = 'parse_query'
     loop_bound = 40
     describe = ('parse_query on `x -> [digits N] [base B | hex | oct | bin] [target]` with symbolic decimal digits for N and B: the query carries '
-                'exactly the base and digit count written, a base outside 2..=36 is an error, nothing panics')
-    bounds = ['left-hand side = one identifier; N of 1..3 digits, B of 1..3 digits; target absent or one identifier']
+                'exactly the base and digit count written, a base outside 2..=36 is an error, nothing panics; a temperature-scale target is '
+                'a scale conversion only when the scale is the whole target (`-> degC / s`, `-> degF m` are compound targets)')
+    bounds = ['left-hand side = one identifier; N of 1..3 digits, B of 1..3 digits; target absent, one identifier, a scale, or a scale followed by `/ y` or `y`']
+    TARGETS = [None, 'ident', 'degree', 'degree/ident', 'degree ident']
     expect_classes = ['Convert', 'Error']
     _concrete = None
     stubs = ((r'^<Tz as FromStr>::from_str$', lambda ex, nc, a: ex.make_variant('Result', 'Err', ['not a timezone']),
@@ -513,7 +515,7 @@ class ConversionSuffix(Harness):
         from .c14dates import digits as sym_digits
         dg = self.DIGITS[ex.choose(len(self.DIGITS), 'digits clause')]
         bs = self.BASES[ex.choose(len(self.BASES), 'base clause')]
-        tgt = ex.choose(2, 'target present')
+        tgt = self.TARGETS[ex.choose(len(self.TARGETS), 'target')]
         T = lambda n, f=(): variant(ex, 'Token', n, list(f))
         toks = [T('Ident', ['x']), T('DashArrow')]
         ctx = {'dg': dg, 'bs': bs, 'tgt': tgt, 'n': None, 'b': None}
@@ -533,13 +535,19 @@ class ConversionSuffix(Harness):
             ctx['b'] = v
         elif bs == 'base-eof':
             toks.append(T('Ident', ['base']))
-            tgt = 0
+            tgt = None
         elif bs == 'base-ident':
             toks += [T('Ident', ['base']), T('Ident', ['ten'])]
         elif bs:
             toks.append(T('Ident', [bs]))
-        if tgt:
+        if tgt == 'ident':
             toks.append(T('Ident', ['y']))
+        elif tgt:
+            toks.append(T('Degree', [variant(ex, 'Degree', 'Celsius')]))
+            if tgt == 'degree/ident':
+                toks += [T('Slash'), T('Ident', ['y'])]
+            elif tgt == 'degree ident':
+                toks.append(T('Ident', ['y']))
         ctx['tgt'] = tgt
         it = PeekableV(RepeatEof(toks, variant(ex, 'Token', 'Eof')))
         return [it], ctx
@@ -578,7 +586,13 @@ class ConversionSuffix(Harness):
         obs.append(('digits mode is the one written (%s, got %s)' % (want_d, digs.vname), digs.vname == want_d))
         if want_d == 'Digits' and digs.vname == 'Digits':
             obs.append(('digit count is the one written', n_eq(digs.fields[0], ctx['n'])))
-        obs.append(('target %s' % ('expression' if ctx['tgt'] else 'absent'), conv.vname == ('Expr' if ctx['tgt'] else 'None')))
+        tgt = ctx['tgt']
+        if tgt in (None, 'ident'):
+            obs.append(('target %s' % ('expression' if tgt else 'absent'), conv.vname == ('Expr' if tgt else 'None')))
+        elif tgt == 'degree':
+            obs.append(('a bare scale is a scale conversion', conv.vname == 'Degree'))
+        else:
+            obs.append(('a scale followed by more is a compound target, not a scale conversion (got %s)' % conv.vname, conv.vname != 'Degree'))
         return obs
 
     def case(self, ctx, vals, label):
@@ -606,10 +620,13 @@ class ConversionSuffix(Harness):
             t += ' base ten'
         elif bs:
             t += ' ' + bs
+        t += {None: '', 'ident': '', 'degree': ' degC', 'degree/ident': ' degC / s', 'degree ident': ' degC m', 0: '', 1: ''}.get(inputs.get('target'), '')
         return t, (int(num('b')) if bs == 'base' else None)
 
     def native(self, inputs, label):
         t, b = self._text(inputs)
+        if str(inputs.get('target') or '').startswith('degree'):
+            return [{'mode': 'query', 'text': t.replace('10/3', '300 K')}]
         return [{'mode': 'query', 'text': t}, {'mode': 'query', 'text': t.replace('10/3', '255 m')}]
 
     def judge(self, inputs, label, obs):
@@ -622,6 +639,8 @@ class ConversionSuffix(Harness):
                 bad.append('`%s` is answered in base %d: %s' % (t, b, q.get('display')))
             elif inputs['base_clause'] in ('base-eof', 'base-ident') and q.get('outcome') == 'ok':
                 bad.append('`%s` is answered: %s' % (t, q.get('display')))
+            elif inputs.get('target') in ('degree/ident', 'degree ident') and q.get('outcome') == 'ok':
+                bad.append('the compound scale target of `%s` is not refused: %s' % (t.replace('10/3', '300 K'), q.get('display')))
         return bool(bad), '; '.join(bad[:2]) or '`%s` -> %s' % (t, str(obs[0].get('display'))[:80])
 
 
